@@ -172,9 +172,11 @@ func (m *MessageStore) processMessageLoop(ctx context.Context, tracer *messageMe
 			continue
 		} else if !hasKnownChainKey {
 			// we dont know the chain key yet, add message to the device cache
-			device.queue.Add(message)
-			_ = m.emitters.groupCacheMessage.Emit(*message)
-			continue
+			if m.addToDeviceCache(device, message) {
+				_ = m.emitters.groupCacheMessage.Emit(*message)
+				continue
+			}
+			// the chain key has been registered in the meantime, process the message
 		}
 
 		// actually process the message
@@ -224,6 +226,21 @@ func (m *MessageStore) getOrCreateDeviceCache(ctx context.Context, message *mess
 	}
 
 	return device, device.hasKnownChainKey
+}
+
+// addToDeviceCache queues a message of a device whose chain key is unknown. It reports false,
+// leaving the message to the caller, when the chain key has been registered since the device
+// cache was looked up: ProcessMessageQueueForDevicePK has run already and would not release it.
+func (m *MessageStore) addToDeviceCache(device *groupCache, message *messageItem) bool {
+	m.muDeviceCaches.Lock()
+	defer m.muDeviceCaches.Unlock()
+
+	if device.hasKnownChainKey {
+		return false
+	}
+
+	device.queue.Add(message)
+	return true
 }
 
 // process the whole device queue (if any) into to the message queue
